@@ -286,6 +286,21 @@ METRIC_KEYS = ["pops", "iters", "propagations", "radius_cap_hits", "layer_cap_hi
                "max_delta", "cache_hits", "cache_misses", "t1_frontier_evicted", "t1_dedup_hits", "t1_visited_evicted"]
 
 
+
+def slice_left(case: dict, pops: int, iters: int) -> dict:
+    """the case as the next graph of the same call sees it: a T1 slice budget is shared by the active graphs,
+    each graph gets what the earlier ones left (`int(slice) - total so far`); no slice budget: unchanged"""
+    sl = case.get("slice")
+    if not sl:
+        return case
+    left = dict(sl)
+    if left.get("t1_pops") is not None:
+        left["t1_pops"] = int(left["t1_pops"]) - pops
+    if left.get("t1_iters") is not None:
+        left["t1_iters"] = int(left["t1_iters"]) - iters
+    return dict(case, slice=left)
+
+
 def call_real(case: dict, active: List[str], trace: bool, store=None, keep_cache: bool = False) -> dict:
     """One real `t1_propagate` call; on a fresh store built from `case`, or on the given (history) store."""
     from clematis.engine.stages import t1 as t1mod
@@ -668,9 +683,12 @@ class T1Comp(Component):
         singles = None
         if len(case["active"]) > 1:
             singles = []
+            tp = ti = 0
             for a in case["active"]:
                 try:
-                    singles.append(call_real(case, [a], trace))
+                    singles.append(call_real(slice_left(case, tp, ti), [a], trace))
+                    tp += int(singles[-1]["metrics"]["pops"])
+                    ti += int(singles[-1]["metrics"]["iters"])
                 except Exception as e:  # the whole call would have raised too
                     singles.append({"__raised__": type(e).__name__})
         out["singles"] = singles
@@ -1356,9 +1374,13 @@ class T1CacheHistory(T1Comp):
                 rec["cold"] = {"raised_exc": type(e).__name__, "msg": str(e)[:200]}
             # per-graph cold runs: the expected concatenation
             per = []
+            tp = ti = 0
             for a in ck["active"]:
                 try:
-                    per.append(call_real(ck, [a], False)["deltas"])
+                    one = call_real(slice_left(ck, tp, ti), [a], False)
+                    per.append(one["deltas"])
+                    tp += int(one["metrics"]["pops"])
+                    ti += int(one["metrics"]["iters"])
                 except Exception as e:
                     per.append(None)
             rec["per_graph"] = per
